@@ -20,6 +20,7 @@ Definition res_eqb (a b : res) : bool :=
   match a, b with
   | RUnit, RUnit | RPanic, RPanic | RBad, RBad => true
   | RContent d, RContent d' => content_eqb d d'
+  | RStd b d, RStd b' d' => Bool.eqb b b' && content_eqb d d'
   | RCmp x, RCmp y => x =? y
   | RFault f, RFault g => fault_eqb f g
   | _, _ => false
